@@ -370,6 +370,10 @@ func genXLSX(t *rapid.T) XCase {
 		word := rapid.SampledFrom([]string{"Alpha", "Zeta", "Mid", "beta", "Sheet1", "Sheet10", "Sheet2", "2", "10", "Öl"}).Draw(t, "nameWord")
 		w.Sheets = append(w.Sheets, genTokenSheet(t, k, word+" "+k.next()))
 	}
+	if n >= 2 && rapid.IntRange(0, 3).Draw(t, "emptySheet") == 0 {
+		// a declared, readable worksheet without any cell (the spare "Sheet2"): still a sheet, still a page
+		w.Sheets[rapid.IntRange(0, n-2).Draw(t, "emptyIdx")].Cells = nil
+	}
 	for i, d := 0, rapid.IntRange(0, 4).Draw(t, "decoys")-2; i < d; i++ {
 		w.Decoys = append(w.Decoys, genTokenSheet(t, k, fmt.Sprintf("Decoy%d", i)))
 	}
